@@ -144,6 +144,7 @@ type CallRec struct {
 
 // HookCall records an invocation of the configured bridge hook.
 type HookCall struct {
+	H      int // context handle the notification was sent on
 	Name   string
 	Bridge string
 	Cfg    TV
